@@ -52,6 +52,37 @@ def gen_for(pid, rng, tier):
             # conflicting members make and_(constraints, bounds) cycle to its iteration cap on EVERY application (seconds per
             # Powell line search): a few iterations exercise the clause as well as many
             spec["ops"] = spec["ops"][:3]
+        elif rng.random() < 0.12:
+            # bounds lists with None ENTRIES ("no preference for this coordinate"): SetStrictRanges replaces them by the
+            # solver's defaults -1e3 / +1e3 (abstract_solver.py l.~370), which then ARE strict ranges - with a start near that
+            # default bound and an optimum beyond it
+            dim = spec["dim"]
+            j = rng.randrange(dim); up = rng.random() < 0.5
+            c = [common.dyadic(rng, -2, 2, 2) for _ in range(dim)]
+            c[j] = 1500.0 if up else -1500.0
+            x0 = [ci + common.dyadic(rng, -1, 1, 2) for ci in c]
+            x0[j] = (1000.0 - abs(common.dyadic(rng, 1, 6, 1))) * (1.0 if up else -1.0)
+            lo = [v - 3.0 for v in x0]; hi = [v + 3.0 for v in x0]
+            nones = []
+            if up:
+                hi[j] = 1000.0; nones.append((j, "hi"))
+            else:
+                lo[j] = -1000.0; nones.append((j, "lo"))
+            if dim > 1 and rng.random() < 0.5:       # a second coordinate without preference on both sides (far from active)
+                i2 = (j + 1) % dim
+                lo[i2] = -1000.0; hi[i2] = 1000.0; nones += [(i2, "lo"), (i2, "hi")]
+            spec["cost"] = ("scalar", ("sum",) + tuple(("sq", ("-", ("x", i), ("c", c[i]))) for i in range(dim)))
+            spec["reducer"] = None
+            spec["constraints"] = None; spec["penalty"] = None
+            if spec["solver"] in ("DE", "DE2"):
+                spec["population"] = None
+                spec["init_box"] = ([max(a, v - 1.0) for a, v in zip(lo, x0)], [min(b, v + 1.0) for b, v in zip(hi, x0)])
+            else:
+                spec["x0"] = x0
+            spec["ranges"] = (lo, hi, rng.choice([None, True]), None); spec["box_kind"] = "none-entries"
+            spec["ranges_none"] = nones
+            spec["ops"] = [("step",)] * rng.randint(6, 14)
+            spec["limits"] = None; spec["termination"] = ("never",)
     elif pid == "C03":
         spec = solvergen.gen_spec(rng, maxdim=maxdim, nsteps=nsteps, flavour="steps" if k < 0.6 else "ops")
         if spec.get("constraints") is None:
